@@ -22,11 +22,12 @@ enum Victim {
     ListTopicSubs,
     GetSub,
     CreateTopic,
+    CreatePushSub,
 }
 
-const VICTIMS: [Victim; 14] = [
+const VICTIMS: [Victim; 15] = [
     Victim::CreateSub, Victim::DeleteSub, Victim::DeleteTopic, Victim::Publish, Victim::Pull, Victim::PullBlocking, Victim::StreamingPull,
-    Victim::Ack, Victim::Nack, Victim::Modify, Victim::ListSubs, Victim::ListTopicSubs, Victim::GetSub, Victim::CreateTopic,
+    Victim::Ack, Victim::Nack, Victim::Modify, Victim::ListSubs, Victim::ListTopicSubs, Victim::GetSub, Victim::CreateTopic, Victim::CreatePushSub,
 ];
 
 const MAX_K: usize = 7;
@@ -70,7 +71,7 @@ fn scenario(saturated: bool) -> ScenFn {
         // world: T0 with S0 and (unless the victim creates it) S1; message m1 published; S0's copy held by the victim-to-be
         must!(cx, "setup:create-topic", { let a = a.clone(); async move { a.create_topic(T0).await } });
         must!(cx, "setup:create-sub", { let a = a.clone(); async move { a.create_sub(S0, T0, 10, None).await } });
-        if victim != Victim::CreateSub {
+        if victim != Victim::CreateSub && victim != Victim::CreatePushSub {
             must!(cx, "setup:create-sub", { let a = a.clone(); async move { a.create_sub(S1, T0, 10, None).await } });
         }
         must!(cx, "setup:publish", { let a = a.clone(); async move { a.publish(T0, vec![(b"m1".to_vec(), vec![])]).await } });
@@ -98,6 +99,7 @@ fn scenario(saturated: bool) -> ScenFn {
         let h = cx.spawn("client:1-victim", async move {
             let r = match victim {
                 Victim::CreateSub => res(&a2.create_sub(S1, T0, 10, None).await),
+                Victim::CreatePushSub => res(&a2.create_sub(S1, T0, 10, Some("http://push.example/s1")).await),
                 Victim::DeleteSub => res(&a2.delete_sub(S0).await),
                 Victim::DeleteTopic => res(&a2.delete_topic(T0).await),
                 Victim::Publish => res(&a2.publish(T0, vec![(b"p1".to_vec(), vec![]), (b"p2".to_vec(), vec![])]).await),
@@ -178,6 +180,16 @@ fn scenario(saturated: bool) -> ScenFn {
                 }
             }
         }
+        // every existing subscription that reports a push endpoint is registered for push, and nothing else is
+        {
+            let reg: BTreeSet<String> = cx.parts.push.entries().into_iter().map(|(n, _)| n.to_string()).collect();
+            for (name, g) in [(S0, &g0), (S1, &g1)] {
+                let wants = g.as_ref().map(|v| v.push_endpoint.is_some()).unwrap_or(false);
+                if wants != reg.contains(name) {
+                    return ScenarioOut::viol("half-created/push-registration", format!("{}: {} {} a push endpoint according to GetSubscription, but the push registry {} it", case, name, if wants { "has" } else { "has no" }, if reg.contains(name) { "contains" } else { "does not contain" }));
+                }
+            }
+        }
         // message conservation: a probe message reaches every subscription on the live topic; everything published
         // earlier and not acknowledged is still deliverable (now or after the deadline); a Publish is all-or-nothing
         if topic_alive {
@@ -213,7 +225,7 @@ fn scenario(saturated: bool) -> ScenFn {
                 return ScenarioOut::viol("half-created/subscription-exists-but-not-attached", format!("{}: {} exists but did not receive a message published afterwards", case, name));
             }
             // m1: published before anything else; only the victim's own Ack may remove S0's copy; a subscription created by the victim never had it
-            let created_by_victim = victim == Victim::CreateSub && *name == S1;
+            let created_by_victim = (victim == Victim::CreateSub || victim == Victim::CreatePushSub) && *name == S1;
             let may_be_acked = victim == Victim::Ack && *name == S0;
             if !created_by_victim && !may_be_acked && !has(set, "m1") {
                 return ScenarioOut::viol("lost-message", format!("{}: message m1 was never redelivered on {} (received {:?})", case, name, set.iter().map(|d| String::from_utf8_lossy(d).to_string()).collect::<Vec<_>>()));
@@ -236,7 +248,7 @@ fn scenario(saturated: bool) -> ScenFn {
             return ScenarioOut::viol("half-done/publish-partial-fanout", format!("{}: the abandoned Publish reached some subscriptions but not others", case));
         }
         let effect = match victim {
-            Victim::CreateSub => if g1.is_ok() { "created" } else { "not-created" },
+            Victim::CreateSub | Victim::CreatePushSub => if g1.is_ok() { "created" } else { "not-created" },
             Victim::DeleteSub => if g0.is_ok() { "kept" } else { "deleted" },
             Victim::DeleteTopic => if topic_alive { "kept" } else { "deleted" },
             Victim::Publish => if publish_seen.first() == Some(&true) { "published" } else { "not-published" },
